@@ -89,8 +89,10 @@ func verifKVRun(tag string, db DB, under DB, nOps int) {
 	vapi.Assert(tag+".bucket", db.Bucket(name) == nil)
 	b, err := db.CreateBucket(name)
 	vapi.Assert(tag+".bucket", err == nil && b != nil)
+	bucketFlushed := false // the bucket's creation has been flushed
 	if vapi.Bool("flush-after-create") {
 		vapi.Assert(tag+".flush", db.Flush() == nil)
+		bucketFlushed = true
 	}
 	for step := 0; step < nOps; step++ {
 		b = db.Bucket(name)
@@ -107,6 +109,7 @@ func verifKVRun(tag string, db DB, under DB, nOps int) {
 		case 2: // flush
 			vapi.Assert(tag+".flush", db.Flush() == nil)
 			m.flush()
+			bucketFlushed = true
 			if under != nil {
 				// durable content of the backend equals the committed model
 				ub := under.Bucket(name)
@@ -123,6 +126,8 @@ func verifKVRun(tag string, db DB, under DB, nOps int) {
 		case 3: // cancel
 			db.Cancel()
 			m.cancel()
+			// a flushed bucket is durable: Cancel discards only what came after
+			vapi.Assert(tag+".flushed-bucket-survives-cancel", !bucketFlushed || db.Bucket(name) != nil)
 			if db.Bucket(name) == nil {
 				// bucket creation itself was cancelled: nothing more to compare
 				vapi.Reach("cancelled-bucket")
